@@ -603,9 +603,18 @@ class Mscu:
             self.t0 = sv.Servo.ctime()
         orig = self.system._parse
 
+        self.ever_outside = False
+
         def recording_parse(msg):
             self.msgs.append(msg)
-            return orig(msg)
+            if msg[1:3] == '__':          # getattr would reach object internals (see Model/SmcMscu.v)
+                self.ever_outside = True
+            try:
+                return orig(msg)
+            finally:
+                # a non-int time stamp may be removed again by a later clean: latch it now
+                if not self._hist_in_domain():
+                    self.ever_outside = True
         self.system._parse = recording_parse
         self.evs = []
         self.outs = []
@@ -637,10 +646,14 @@ class Mscu:
         with patched(self.sv, **self.patch):
             self.system.system_stop()
 
-    def in_domain(self):
-        """every history time stamp is an int (see Model/SmcMscu.v, modelled domain)"""
+    def _hist_in_domain(self):
         return all(isinstance(e[0], int) and not isinstance(e[0], bool)
                    for s in self.system.servos.values() for e in s.history.history)
+
+    def in_domain(self):
+        """no request so far left the modelled domain (see Model/SmcMscu.v): every history time stamp
+        ever stored was an int, no command name began with '__'"""
+        return not self.ever_outside and self._hist_in_domain()
 
     def final_term(self):
         items = []
@@ -809,7 +822,7 @@ class TPSim:
     ctype = 'tp_case'
     term = '\n'
     safe_pieces = ['?', 'V', 'R', 'E 1 2', 'E 1', 'A 1 B', 'A 1 B 3', 'I B', 'X 1 2', 'N', 'S', 'M', 'Z', 'T 1',
-                   'A 99 B 1 1', 'I Q 1 1', 'N 7', 'foo', 'pause x']
+                   'A 99 B 1 1', 'I Q 1 1', 'N 7', 'foo', 'q x']
     safe_alphabet = list('?EVR 0123456789xyz,.-\t')
     probe = '?\n'
     queries = ['?', 'V', 'R', 'E 12 5', 'E 0 0', '? ', ' ?', 'R 1 2', 'V 3']
@@ -1053,10 +1066,20 @@ def hexs(s):
 
 
 def safe_history(rng, S, n):
-    """bytes that cannot change the device state: queries, refused and truncated commands, garbage
-    over an alphabet from which no state-changing command can be spelled"""
+    """bytes that cannot change the device state.  Every chunk is a complete line / frame of its own:
+    a query, a refused command, a prefix of one of those, or garbage over an alphabet from which no
+    state-changing command can be spelled - and EVERY chunk but the last is closed by a real terminator
+    of the protocol, so that two harmless chunks can never concatenate into a valid write (a truncated
+    'DBE SETSTATUS BOARD 1' followed by garbage ' 1', 'S' followed by ' 56', '#setpos:0=1,0,0'
+    followed by ',0,0,0,0,0,0').  The last chunk is left open; the caller's terminator closes it."""
+    if S is TPSim:
+        terms = ['\n', '\r', '\r\n']
+    elif S is DBSim:
+        terms = ['\n', '\r\n', '\r\r\n']          # a lone \r does not terminate a dbesm line
+    else:
+        terms = ['\r\n', '\n\r']
     out = ''
-    for _ in range(n):
+    for k in range(n):
         r = rng.random()
         if r < 0.4:
             p = rng.choice(S.safe_pieces)
@@ -1065,7 +1088,7 @@ def safe_history(rng, S, n):
             p = p[:rng.randrange(len(p) + 1)]
         else:
             p = garbage(rng, rng.randrange(1, 14), S.safe_alphabet)
-        out += p + rng.choice([S.term, '', '', '\r', '\n'] if S is not MSSim else ['\r\n', '\n\r', '', '', '\r', '\n'])
+        out += p + (rng.choice(terms) if k < n - 1 else '')
     return out
 
 
@@ -1286,6 +1309,8 @@ def _ack(S, o):
 def oracle_c05(ctx, S):
     rng = ctx.rng
     n = ctx.n(60, 800)
+    if S is MSSim:
+        corpus_c05_mscu(ctx)
     for _ in range(n):
         s = make_history(rng, S, 'general', rng.randrange(0, 10) + 1)
         if not s.in_domain():
@@ -1400,25 +1425,94 @@ def oracle_c05(ctx, S):
                 s.d.set_nak(True)
                 before = s.snap()
             cmd = '#setpos:3=%d,%s\r\n' % (a, ','.join(['0'] + vals))
-            o = s.feed(cmd)[-1]
-            w = dict(sim=S.name, kind='c05', history=pre, write=hexs(cmd))
-            if _ack(S, o):
-                for _k in range(rng.randrange(0, 3)):
-                    s.d.tick(rng.choice([0.5, 2.0]))
-                    s.feed(rng.choice(['#getstatus:0=%d\r\n' % a, '#setup:0=%d\r\n' % a, '#getpos:0=%d\r\n' % ((a + 1) % 4),
-                                       '#setpos:0=%d,1\r\n' % a, '#foo:0=1\r\n', 'garbage\r\n']))
-                r = s.feed('#getpos:9=%d\r\n' % a)[-1]
-                want = []
-                for t in vals[-axes:]:
-                    want.append(str(int(t, 16)) if 'x' in t else (repr(float(t)) if '.' in t else str(int(t))))
-                got = r[1].rstrip('\r\n').split(',')[1:] if r[0] == 'R' else None
-                future = any(e[0] > s.d.now() for e in s.system.servos[a].history.history)
-                if got != want and not future:
-                    ctx.fail('mscu_setpos_readback', 'acknowledged setpos (stamped now) not read back by getpos',
-                             dict(w, got=repr(r), want=want))
-            elif s.snap() != before:
-                ctx.fail('mscu_refused_setpos_changed_state', 'refused setpos changed a history', w)
+            between = []
+            for _k in range(rng.randrange(0, 3)):
+                between.append(('tick', rng.choice([0.5, 2.0])))
+                between.append(('feed', rng.choice(['#getstatus:0=%d\r\n' % a, '#setup:0=%d\r\n' % a,
+                                                    '#getpos:0=%d\r\n' % ((a + 1) % 4), '#setpos:0=%d,1\r\n' % a,
+                                                    '#foo:0=1\r\n', 'garbage\r\n'])))
+            ms_c05_check(ctx, s, a, vals, cmd, between, before, pre)
         s.close()
+
+
+def ms_c05_check(ctx, s, a, vals, cmd, between, before, pre):
+    """one MSCU write / read-back check.  The read-back is promised (C05_mscu_setpos_now_until) exactly
+    when, AT THE TIME OF THE WRITE, the history of that servo holds no entry dated later than now (and
+    is below the 2^15 window): a setpos stamped now sorts BEFORE every future-dated entry, and
+    History.get returns / interpolates towards those as soon as the clock reaches them - even though
+    by then they are no longer 'in the future'.  Returns 'checked', 'skipped' or 'refused'."""
+    axes = MS_AXES[a]
+    hist = s.system.servos[a].history.history
+    now_w = s.d.now()
+    promised = all(e[0] <= now_w for e in hist) and len(hist) < 2 ** 15
+    o = s.feed(cmd)[-1]
+    w = dict(sim='mscu', kind='c05', history=pre, write=hexs(cmd))
+    if not _ack(MSSim, o):
+        if s.snap() != before:
+            ctx.fail('mscu_refused_setpos_changed_state', 'refused setpos changed a history', w)
+        return 'refused'
+    for kind, arg in between:
+        if kind == 'tick':
+            s.d.tick(arg)
+        else:
+            s.feed(arg)
+    r = s.feed('#getpos:9=%d\r\n' % a)[-1]
+    if not promised:
+        ctx.count('mscu:c05:readback-not-promised(later entry at write time)')
+        return 'skipped'
+    want = []
+    for t in vals[-axes:]:
+        want.append(str(int(t, 16)) if 'x' in t else (repr(float(t)) if '.' in t else str(int(t))))
+    got = r[1].rstrip('\r\n').split(',')[1:] if r[0] == 'R' else None
+    if got != want:
+        ctx.fail('mscu_setpos_readback', 'acknowledged setpos (stamped now, no later entry in the history) '
+                 'not read back by getpos', dict(w, got=repr(r), want=want))
+    return 'checked'
+
+
+def ms_run_ops(rng, ops):
+    """a fresh MSCU driven by a recorded script: ['clock', ctime] ['feed', hex] ['tick', dt] ['nak', bool]"""
+    s = MSSim(rng)
+    base = 122192928000000000
+    for op in ops:
+        if op[0] == 'clock':
+            s.d.clock.t = (op[1] - base) / 1e7
+            assert s.d.now() == op[1], (s.d.now(), op[1])
+            if not s.d.evs:            # construction time: rebuild the System at that time
+                import simulators.mscu as ms
+                with patched(s.d.sv, **s.d.patch):
+                    s.d.system.system_stop()
+                    s.d.system = ms.System()
+                s.system = s.d.system
+        elif op[0] == 'feed':
+            s.feed(bytes.fromhex(op[1]).decode('latin-1'))
+        elif op[0] == 'tick':
+            s.d.tick(op[1])
+        elif op[0] == 'nak':
+            s.d.set_nak(op[1])
+    return s
+
+
+def corpus_c05_mscu(ctx):
+    """minimised past failures (corpus/C05/mscu-*.json), run first on every run"""
+    import glob
+    import json
+    import os
+    from vlib.core import VERIF
+    n = 0
+    for path in sorted(glob.glob(os.path.join(VERIF, 'corpus', 'C05', 'mscu-*.json'))):
+        c = json.load(open(path))
+        s = ms_run_ops(ctx.rng, c['ops'])
+        before = s.snap()
+        res = ms_c05_check(ctx, s, c['servo'], c['vals'], bytes.fromhex(c['write']).decode('latin-1'),
+                           [tuple(x) for x in c['between']], before, 'corpus:' + os.path.basename(path))
+        s.close()
+        n += 1
+        ctx.count('mscu:c05:corpus-%s' % res)
+        if 'expect' in c and res != c['expect']:
+            ctx.fail('mscu_corpus_case_changed', 'corpus case no longer takes the recorded path',
+                     dict(sim='mscu', kind='c05', case=os.path.basename(path), got=res, expect=c['expect']))
+    return n
 
 
 def replay_c05(ctx, obj, S):
